@@ -869,6 +869,9 @@ func TestVerifC05Resolvers(t *testing.T) {
 			},
 		})
 		if err != nil {
+			// Keep the first message of a failure that rapid cannot
+			// reproduce (it only prints the re-run then).
+			fmt.Fprintf(os.Stderr, "C05R-FAILURE: %v\n", err)
 			rt.Fatalf("%v\nparams: %v\ntrace:\n  %s", err, p,
 				strings.Join(s.Trace, "\n  "))
 		}
